@@ -557,9 +557,15 @@ func emit(e *exec) ([]string, emitStats) {
 		}
 		return 99999
 	}
+	// stamps (ns): an event happened between lo and hi.  For a join, lo is taken before Invoke was called (the timer
+	// is armed / re-armed later than that), hi inside the mutex section after the timer operation; for everything
+	// else both are the instant the hook was logged (a wake-up is logged after the timer fired).
+	var lo, hi int64
+	invokeT := map[int]int64{}
+	tw := func(s string) string { return fmt.Sprintf("((%d)%%Z, (%d)%%Z, %s", lo, hi, s[1:]) }
 	flush := func(g int) {
 		if pendingCancel[g] {
-			evs = append(evs, fmt.Sprintf("(LCtxCancel %d, ObNone)", g))
+			evs = append(evs, tw(fmt.Sprintf("(LCtxCancel %d, ObNone)", g)))
 			pendingCancel[g] = false
 		}
 	}
@@ -584,14 +590,19 @@ func emit(e *exec) ([]string, emitStats) {
 	for i, ev := range log {
 		a := ev.Args
 		closedNow = closes[i]
+		lo, hi = ev.T, ev.T
 		switch ev.Point {
+		case "h.invoke":
+			if who, ok := a[0].(int); ok {
+				invokeT[who] = ev.T
+			}
 		case "h.cancel":
 			who := a[0].(int)
 			cancelled[who] = true
 			st.cancels++
 			if g, ok := creatorGroup[who]; ok {
 				if final[g] {
-					evs = append(evs, fmt.Sprintf("(LCtxCancel %d, ObNone)", g))
+					evs = append(evs, tw(fmt.Sprintf("(LCtxCancel %d, ObNone)", g)))
 				} else {
 					pendingCancel[g] = true
 				}
@@ -600,6 +611,9 @@ func emit(e *exec) ([]string, emitStats) {
 			st.rollovers++
 		case "batch.join":
 			who := ev.G // the hook runs on the calling goroutine, which is registered under the caller's number
+			if t0, ok := invokeT[who]; ok && t0 <= ev.T {
+				lo = t0
+			}
 			vid := vidOf(a[1])
 			index, _ := a[2].(int)
 			existed, _ := a[3].(bool)
@@ -618,7 +632,7 @@ func emit(e *exec) ([]string, emitStats) {
 			if woken[g] && !unpub[g] {
 				st.joinsAfterWake++
 			}
-			evs = append(evs, fmt.Sprintf("(LJoin %d %d %d %v, ObJoin %d %d %v %v)", c.funcOf(who), vid, c.shardOf(vid), !existed && cancelled[who], g, index, existed, closedNow))
+			evs = append(evs, tw(fmt.Sprintf("(LJoin %d %d %d %v, ObJoin %d %d %v %v)", c.funcOf(who), vid, c.shardOf(vid), !existed && cancelled[who], g, index, existed, closedNow)))
 		case "batch.wake":
 			g := gid(a[0])
 			cause := map[string]string{"interval": "CInterval", "maxduration": "CMaxDur", "ctxdone": "CCtxDone", "maxsize": "CMaxSize"}[a[1].(string)]
@@ -626,19 +640,19 @@ func emit(e *exec) ([]string, emitStats) {
 				flush(g)
 			}
 			woken[g] = true
-			evs = append(evs, fmt.Sprintf("(LWake %d %s, ObNone)", g, cause))
+			evs = append(evs, tw(fmt.Sprintf("(LWake %d %s, ObNone)", g, cause)))
 		case "batch.unpublish":
 			deleted[gid(a[0])] = true
 		case "batch.unpublished":
 			g := gid(a[0])
 			unpub[g] = true
-			evs = append(evs, fmt.Sprintf("(LUnpublish %d, ObUnpub %v)", g, deleted[g]))
+			evs = append(evs, tw(fmt.Sprintf("(LUnpublish %d, ObUnpub %v)", g, deleted[g])))
 		case "h.many":
 			k, _ := a[0].(int)
 			mc := manyByK[k]
 			g, ok := creatorGroup[ev.G]
 			if !ok || mc == nil {
-				evs = append(evs, "(LRun 99999 OErr, ObNone)")
+				evs = append(evs, tw("(LRun 99999 OErr, ObNone)"))
 				break
 			}
 			o := "OErr"
@@ -663,15 +677,15 @@ func emit(e *exec) ([]string, emitStats) {
 			}
 			final[g] = true
 			gOutcome[g] = mc.outcome
-			evs = append(evs, fmt.Sprintf("(LRun %d %s, ObMany %d %s)", g, o, mc.fid, natList(mc.args)))
+			evs = append(evs, tw(fmt.Sprintf("(LRun %d %s, ObMany %d %s)", g, o, mc.fid, natList(mc.args))))
 			flush(g)
 		case "batch.cancelled":
 			g := gid(a[0])
 			flush(g)
 			final[g] = true
-			evs = append(evs, fmt.Sprintf("(LCancel %d, ObNone)", g))
+			evs = append(evs, tw(fmt.Sprintf("(LCancel %d, ObNone)", g)))
 		case "batch.done":
-			evs = append(evs, fmt.Sprintf("(LDone %d, ObNone)", gid(a[0])))
+			evs = append(evs, tw(fmt.Sprintf("(LDone %d, ObNone)", gid(a[0]))))
 		case "h.return":
 			who, _ := a[0].(int)
 			val, _ := a[1].(int)
@@ -680,7 +694,7 @@ func emit(e *exec) ([]string, emitStats) {
 			if !ok {
 				ci = 99999
 			}
-			evs = append(evs, fmt.Sprintf("(LReturn %d, ObRet %s)", ci, coqRet(val, kind, gOutcome[callerG[who]])))
+			evs = append(evs, tw(fmt.Sprintf("(LReturn %d, ObRet %s)", ci, coqRet(val, kind, gOutcome[callerG[who]]))))
 		}
 	}
 	for g := range pendingCancel {
@@ -1115,7 +1129,7 @@ func main() {
 		if len(terms) == 0 {
 			return
 		}
-		run.WriteCasesV(fmt.Sprintf("cases_%d.v", start), []string{"Batch.Model"}, "", "mismatches_from_sparse", 0, terms)
+		run.WriteCasesV(fmt.Sprintf("cases_%d.v", start), []string{"Batch.Model", "Batch.ModelTimed"}, "", "tmismatches_from_sparse", 0, terms)
 		terms = nil
 	}
 	nFail := 0
@@ -1200,7 +1214,9 @@ func main() {
 			continue
 		}
 		// a MaxSize beyond any possible number of callers is "never full"; the model gets 1000 for it (nat literal)
-		terms = append(terms, fmt.Sprintf("(%d, mk_case [%d; %d] %s %v)", idx, mini(c.MaxSize, 1000), mini(c.MaxSize2, 1000), vh.CoqList(evs), all))
+		wns, mns := int64(c.WaitUs)*1000, int64(c.MaxDurUs)*1000
+		terms = append(terms, fmt.Sprintf("(%d, mk_tcase [%d; %d] [((%d)%%Z, (%d)%%Z); ((%d)%%Z, (%d)%%Z)] %s %v)", idx, mini(c.MaxSize, 1000), mini(c.MaxSize2, 1000),
+			wns, mns, wns, mns, vh.CoqList(evs), all))
 		if len(terms) >= shard {
 			flush()
 			start = idx + 1
